@@ -53,7 +53,18 @@ impl PreloadUnverifiedBlocksChannel {
     fn preload_unverified_channel(&self, task: LonelyBlockHash) {
         let block_number = task.block_number_and_hash.number();
         let block_hash = task.block_number_and_hash.hash();
+        #[cfg(ckb_verif)]
+        let _verif_section = crate::verif::section();
         let unverified_block: UnverifiedBlock = self.load_full_unverified_block_by_hash(task);
+        #[cfg(ckb_verif)]
+        crate::verif::emit(
+            "Preload",
+            &format!(
+                "\"b\":{},\"txs\":{}",
+                crate::verif::h(&block_hash),
+                unverified_block.block.transactions().len()
+            ),
+        );
 
         if let Some(metrics) = ckb_metrics::handle() {
             metrics
